@@ -23,8 +23,12 @@ Byte == 0..255
 IsByteSeq(b) == \A i \in 1..Len(b) : b[i] \in Byte
 
 \* ---- slicing (0-based offsets, like the code) -----------------------------
-Bytes(mem, off, n) == SubSeq(mem, off + 1, off + n)
 InRange(mem, off, n) == off >= 0 /\ n >= 0 /\ off + n <= Len(mem)
+\* total: positions outside the image read as -1, which no recorded byte can equal - a specification
+\* operator applied to an arbitrary (mutated) image then yields a mismatch at worst, never an evaluation error
+Bytes(mem, off, n) ==
+  IF InRange(mem, off, n) THEN SubSeq(mem, off + 1, off + n)
+  ELSE [i \in 1..(IF n > 0 THEN n ELSE 0) |-> IF off + i >= 1 /\ off + i <= Len(mem) THEN mem[off + i] ELSE -1]
 
 \* ---- little endian -----------------------------------------------------------
 LE2(b) == b[1] + 256 * b[2]
